@@ -776,6 +776,43 @@ func runC17(c *Ctx) {
 		}
 	}
 
+	// Scale / Unit / Total: every unit family and spelling (default and non-default units, unknown
+	// units, the literal "default") x divide_by ratios (unset, 1, < 1, > 1, tiny, negative), on a
+	// profile with an empty stack, a location without lines, negative values and a base sample
+	{
+		fa := &profile.Function{ID: 1, Name: "a", Filename: "a.go"}
+		fb := &profile.Function{ID: 2, Name: "b", Filename: "b.go"}
+		la := &profile.Location{ID: 1, Line: []profile.Line{{Function: fa, Line: 1}}}
+		lb := &profile.Location{ID: 2, Line: []profile.Line{{Function: fb, Line: 2}}}
+		ln := &profile.Location{ID: 3}
+		units := []string{"nanoseconds", "ns", "us", "microseconds", "ms", "milliseconds", "s", "seconds", "minutes", "hrs", "days", "bytes", "B", "kB", "KB", "kilobytes", "MB", "GB",
+			"count", "", "objects", "GCU", "n*GCU", "microgcu", "milligcu", "k*GCU", "default", "minimum", "auto", "bogus", "Seconds", "MS"}
+		ratios := []float64{0, 1, 0.5, 4, 0.25, 0.001, 1000, -1, 1e-9}
+		for ui, u := range units {
+			for ri, ratio := range ratios {
+				if c.Tier != "thorough" && ri > 3 && (ui+ri)%3 != 0 {
+					continue
+				}
+				p := &profile.Profile{SampleType: []*profile.ValueType{{Type: "t", Unit: u}, {Type: "n", Unit: "count"}},
+					Function: []*profile.Function{fa, fb}, Location: []*profile.Location{la, lb, ln},
+					Sample: []*profile.Sample{
+						{Location: []*profile.Location{lb, la}, Value: []int64{70, 2}},
+						{Location: []*profile.Location{la}, Value: []int64{-20, 3}},
+						{Location: nil, Value: []int64{10, 1}},
+						{Location: []*profile.Location{ln}, Value: []int64{5, 0}},
+					}}
+				if ri%3 == 2 {
+					p.Sample[1].Label = map[string][]string{"pprof::base": {"true"}}
+				}
+				o := c17Opts{index: 0, meanDiv: -1, typ: "t", unit: u, ratio: ratio}
+				if ri%4 == 3 {
+					o.meanDiv = 1
+				}
+				c17Direct(c, "scale-matrix", p, o, "unit:"+u)
+			}
+		}
+	}
+
 	n := c.Budget(400, 30000)
 	for k := 0; k < n; k++ {
 		p := c17Profile(c.R, false)
